@@ -159,6 +159,16 @@ func evalNameArray(node *jparse.NameNode, data reflect.Value, env *environment) 
 			return undefined, err
 		}
 
+		// An item that is itself an array yields a sequence.
+		// Splice its values into the results instead of
+		// nesting one sequence inside another.
+		if seq, ok := asSequence(v); ok {
+			for _, item := range seq.values {
+				results.Append(item)
+			}
+			continue
+		}
+
 		if v.IsValid() && v.CanInterface() {
 			results.Append(v.Interface())
 		}
